@@ -29,7 +29,7 @@ EXPLANATION = ('C12: a base file with two watchers and K<=3 edits from {add watc
                'env variable, change graceful_timeout, revert the previous edit, no edit}, each followed by reloadconfig (waiting). ')
 
 EDITS = ('none', 'add_c', 'rm_b', 'np_up', 'np_down', 'cmd', 'env', 'opt', 'revert', 'rm_c', 'np_b_up', 'cmd_b', 'cmd_both',
-         'rm_a_and_b', 'add_c_d', 'np_a_cmd_b', 'np_b_cmd_a', 'bad_b')
+         'rm_a_and_b', 'add_c_d', 'np_a_cmd_b', 'np_b_cmd_a', 'bad_b', 'np_b_down')
 
 
 def render(model):
@@ -72,6 +72,8 @@ def apply_edit(model, e, history):
         m['a']['numprocesses'] = max(0, m['a']['numprocesses'] - 1)
     elif e == 'np_b_up' and 'b' in m:
         m['b']['numprocesses'] += 1
+    elif e == 'np_b_down' and 'b' in m:
+        m['b']['numprocesses'] = max(0, m['b']['numprocesses'] - 1)      # 1 -> 0: a watcher scaled to nothing, then back
     elif e == 'cmd' and 'a' in m:
         m['a']['cmd'] = 'proga2' if m['a']['cmd'] == 'proga' else 'proga'
     elif e == 'cmd_b' and 'b' in m:
